@@ -281,7 +281,112 @@ pub fn canon_case(rng: &mut Rng, out: &mut Out) {
     out.count("canonical_cases", 1);
 }
 
+/// text positions written with the complement / intersection operators: a complement may match
+/// invalid UTF-8, but never a special token or the bare marker
+pub fn complement_case(rng: &mut Rng, out: &mut Out) {
+    let (ws, eos, specials) = special_vocab(rng);
+    let env = make_env(&ws, eos, rng.chance(1, 3));
+    let t = *rng.pick(&[
+        "~\"a\"",
+        "~/[a-z]*/",
+        "/[a-z<|>]+/ & ~\"bb\"",
+        "~(~\"ab\")",
+        "~/(?s:.*)x(?s:.*)/",
+        "(~\"a\")+",
+        "\"<\" ~\"|tool|>\"",
+        "~/[a-c]/ | \"c\"",
+    ]);
+    let lark = match rng.below(3) {
+        0 => format!("start: T\nT: {t}\n"),
+        1 => format!("start: \"ab\" T \"!\"\nT: {t}\n"),
+        _ => format!("start: T <|user|> T\nT: {t}\n"),
+    };
+    let names_user = lark.contains("<|user|>");
+    let Ok(mut m) = new_matcher(&env, &lark, &[]) else {
+        out.count("grammar_rejected", 1);
+        return;
+    };
+    let user: Option<u32> = ws.iter().position(|w| w == b"\xFF<|user|>").map(|i| i as u32);
+    for step in 0..6 {
+        if m.is_stopped() {
+            break;
+        }
+        let Ok(mask) = m.compute_mask() else { break };
+        let ml = mask_list(&mask);
+        let acc = m.is_accepting().unwrap_or(false);
+        let leaked: Vec<u32> = ml
+            .iter()
+            .cloned()
+            .filter(|t| (specials.contains(t) || *t == 255) && !(*t == eos && acc) && !(names_user && Some(*t) == user))
+            .collect();
+        if !leaked.is_empty() {
+            out.violation(
+                &format!("a text position written with ~ / & allows special / marker tokens {:?} at step {step}", leaked.iter().map(|t| String::from_utf8_lossy(&ws[*t as usize]).to_string()).collect::<Vec<_>>()),
+                lark.clone(),
+            );
+            return;
+        }
+        let plain: Vec<u32> = ml.iter().cloned().filter(|t| !specials.contains(t)).collect();
+        let Some(t) = pick_token(rng, &plain, &ws, eos) else { break };
+        if m.consume_token(t).is_err() {
+            break;
+        }
+    }
+    out.count("complement_cases", 1);
+}
+
+/// two shapes recorded as known findings (known_findings.json): they are exercised on every run so
+/// that the findings stay visible and any other failure of the same positions is still reported
+pub fn known_shape_cases(rng: &mut Rng, out: &mut Out) {
+    // (a) alternatives whose token ranges overlap: a token denoted by both references must keep
+    //     both alternatives alive (ParserState::flush_and_check_numeric takes the first match only)
+    for _ in 0..3 {
+        let a = 97 + rng.below(3) as u32;
+        let b = a + 1 + rng.below(2) as u32;
+        let (ws, eos) = single_byte_vocab();
+        let env = make_env(&ws, eos, false);
+        let lark = format!("start: <[{}-{}]> \"x\" | <[{}-{}]> \"y\"\n", a, b, a + 1, b + 2);
+        let Ok(mut m) = new_matcher(&env, &lark, &[]) else { continue };
+        let shared = a + 1;
+        if m.consume_token(shared).is_ok() {
+            if let Ok(mask) = m.compute_mask() {
+                let ml = mask_list(&mask);
+                if !(ml.contains(&(b'x' as u32)) && ml.contains(&(b'y' as u32))) {
+                    out.violation(
+                        "overlapping token ranges: after a token denoted by both references only one alternative continues",
+                        format!("call site ParserState::flush_and_check_numeric; token {shared}; mask {:?}; {lark}", ml),
+                    );
+                }
+            }
+        }
+    }
+    // (b) a special token literally named "[N]": the byte pattern of token-range lexemes
+    //     (marker "[" digits "]") matches its bytes, so it is offered at a <[N]> reference
+    let n = 100 + rng.below(100) as u32;
+    let mut ws: Vec<Vec<u8>> = (0..=255u8).map(|b| vec![b]).collect();
+    ws.push(format!("\u{ff}[{n}]").chars().map(|c| c as u8).collect());
+    ws.push(b"\xFF<|eos|>".to_vec());
+    let env = make_env(&ws, 257, false);
+    let lark = format!("start: \"a\" <[{n}]> \"b\"\n");
+    if let Ok(mut m) = new_matcher(&env, &lark, &[]) {
+        if m.consume_token(b'a' as u32).is_ok() {
+            if let Ok(mask) = m.compute_mask() {
+                let ml = mask_list(&mask);
+                if ml != vec![n] {
+                    out.violation(
+                        "a special token literally named [N] is offered at the reference <[N]> under its own (different) id",
+                        format!("call site LexerSpec::add_lexeme_spec special_token_rx; mask {:?} expected [{n}]; {lark}", ml),
+                    );
+                }
+            }
+        }
+    }
+    out.count("known_shape_cases", 1);
+}
+
 pub fn run(rng: &mut Rng, out: &mut Out, tier: &str) {
+    let mut r0 = rng.fork(0xC19);
+    known_shape_cases(&mut r0, out);
     let n = if tier == "thorough" { 8000 } else { 800 };
     for i in 0..n {
         let mut r = rng.fork(i as u64);
@@ -290,5 +395,7 @@ pub fn run(rng: &mut Rng, out: &mut Out, tier: &str) {
         tokenize_case(&mut r, out);
         let mut r = rng.fork(0x7100_0000 + i as u64);
         canon_case(&mut r, out);
+        let mut r = rng.fork(0x7200_0000 + i as u64);
+        complement_case(&mut r, out);
     }
 }
